@@ -58,6 +58,15 @@ CHECKS = {
             'also applied twice (idempotence).',
             'Trusted: the reference models; unpivot patterns that can match the empty string are not '
             'generated.', '3/C17'),
+    'C16': ('pipeline-lab', 'exploration',
+            'runtime monitor: row-id conservation ledger + reference placement models of concatenate / '
+            'duplicate / delete_resource / appended sources / rename; aliasing family (in-place mutators after '
+            'duplicate)',
+            'Packages of 1..5 resources with differing schemas and sizes (empty, >1000 rows) are restructured '
+            'by the real processors; every row carries a unique id, so loss, invention, misplacement and '
+            'changes to untouched resources are all visible against the reference placement.',
+            'Trusted: the placement models; order of fields in the concatenated schema not judged; copies '
+            'compared by value (float may come back as Decimal).', '3/C16'),
 }
 
 NOT_BUILT_REASON = 'check not built yet in this round (design in DESIGN.md section 3); no claim made'
